@@ -1493,10 +1493,11 @@ class FileBuilder:
                     continue
                 made_dirs.append(parent)
                 logger.info('Created directory {:s}'.format(parent))
-        except OSError:
+        except Exception:
             # Don't leave behind the directories we created before the error.
             # The caller never learns about them, so nothing else would ever
-            # remove them.
+            # remove them. (The error need not be an OSError: for a filename
+            # with an embedded null character, os.mkdir raises ValueError.)
             FileBuilder._remove_empty_dirs(made_dirs)
             raise
         return dirs_to_make
